@@ -1,5 +1,5 @@
 """C02 - Fq/Fr arithmetic exact and canonical (partial claim: constants + zero special cases)."""
-from .. import guards, consts, nowrap, fieldlayer
+from .. import guards, consts, nowrap, fieldlayer, asmsem
 
 EXPL = ('Partial claim. Exactness of add/sub/mul/Montgomery reduction for all operands (including the 2^-64-probability '
         'carry tails) is value-level and NOT decided. Decided: (R-CONST) every constant the arithmetic depends on has '
@@ -31,4 +31,7 @@ def run(ctx):
         guards.g237_field_zero_cases(ctx, cfg, prog)
         guards.canon_tables(ctx, cfg, prog)
         ns = nowrap.rule_nowrap(ctx, cfg, prog)
+        wa = asmsem.rule_wordalg(ctx, cfg, os.path.join(ctx.outdir, 'asm'))
+        if cfg == 'x64-asm':
+            ctx.floor('R-WORDALG routine x aliasing instances[%s]' % cfg, wa, 25)
         ctx.floor('R-NOWRAP unsigned additions[%s]' % cfg, ns, 15)
